@@ -171,4 +171,21 @@ def gen_trace20(rng, tier='quick'):
             drags.append(dict(t=round(t, 4), place=place, changes=changes))
         world['horizon'] = t + 0.5
     world['drags'] = drags
+    cand = [i for i in scalar_ids if mvs[i]['keys']]
+    if options.get('animate') and cand and rng.random() < 0.5:
+        ksets = []
+        for _ in range(rng.randint(1, 3)):
+            i = rng.choice(cand)
+            m = mvs[i]
+            pos = rng.randrange(len(m['keys']))
+            if m['cont'] == 'nd':
+                val = gen_value(rng, intonly=True) if m.get('dtype') == 'int64' else float(gen_value(rng))
+            else:
+                val = gen_value(rng)
+            ks = dict(t=round(rng.uniform(0.02, world.get('horizon', 0.6)), 4), mv=i, pos=pos, val=val)
+            if drags and rng.random() < 0.6:
+                ks['after_report'] = True
+                ks['t'] = round(rng.choice(drags)['t'] - 0.0005, 4)
+            ksets.append(ks)
+        world['ksets'] = ksets
     return dict(property='C20', world=world, net_seed=rng.getrandbits(32))
